@@ -95,13 +95,32 @@ pub fn eval_f(e: &E, env: &HashMap<String, f64>) -> f64 {
     }
 }
 
+/// the terms of a top-level chain of additions, left to right
+fn flatten_add<'a>(e: &'a E, out: &mut Vec<&'a E>) {
+    match e {
+        E::Bin(0, a, b) => {
+            flatten_add(a, out);
+            flatten_add(b, out);
+        }
+        _ => out.push(e),
+    }
+}
+
 macro_rules! eval_impl {
-    ($name:ident, $inner:ident, $ty:ty) => {
+    ($name:ident, $inner:ident, $sumname:ident, $ty:ty) => {
         /// Every variable is ONE object, created once and used (cloned: the variable list is shared, as in user code
         /// `let x = Dual::new(..); &x * &x`) wherever the expression mentions it.
         pub fn $name(e: &E, env: &HashMap<String, f64>) -> $ty {
             let vars: HashMap<String, $ty> = env.iter().map(|(k, v)| (k.clone(), <$ty>::new(*v, vec![k.clone()]))).collect();
             $inner(e, &vars)
+        }
+        /// The same expression with its top-level chain of `+` evaluated through `impl Sum for $ty`:
+        /// `[t1, t2, ..].into_iter().sum()` instead of `t1 + t2 + ..` (the iterator form of the operator).
+        pub fn $sumname(e: &E, env: &HashMap<String, f64>) -> $ty {
+            let vars: HashMap<String, $ty> = env.iter().map(|(k, v)| (k.clone(), <$ty>::new(*v, vec![k.clone()]))).collect();
+            let mut terms: Vec<&E> = vec![];
+            flatten_add(e, &mut terms);
+            terms.into_iter().map(|t| $inner(t, &vars)).sum()
         }
         fn $inner(e: &E, env: &HashMap<String, $ty>) -> $ty {
             let $name = $inner;
@@ -133,8 +152,8 @@ macro_rules! eval_impl {
         }
     };
 }
-eval_impl!(eval_d1, eval_d1_in, Dual);
-eval_impl!(eval_d2, eval_d2_in, Dual2);
+eval_impl!(eval_d1, eval_d1_in, eval_d1_sum, Dual);
+eval_impl!(eval_d2, eval_d2_in, eval_d2_sum, Dual2);
 
 fn read_env(r: &mut Rd) -> (Vec<String>, HashMap<String, f64>) {
     let n = r.next() as usize;
@@ -175,12 +194,12 @@ pub fn run(_op: &str, a: &Ints) -> Ints {
     let mut r = Rd::new(a);
     let op = r.next();
     match op {
-        // ---- C01: expression on Dual: plain value, result, gradient1 over the env names
-        1 => guard(|| {
+        // ---- C01: expression on Dual: plain value, result, gradient1 over the env names (31: top-level sum through impl Sum)
+        1 | 31 => guard(|| {
             let (names, env) = read_env(&mut r);
             let e = read_expr(&mut r);
             let mut out = vec![f2i(eval_f(&e, &env))];
-            let d = eval_d1(&e, &env);
+            let d = if op == 31 { eval_d1_sum(&e, &env) } else { eval_d1(&e, &env) };
             write_dual(&d, &mut out);
             let g = d.gradient1(names.clone());
             out.push(g.len() as i128);
@@ -188,11 +207,11 @@ pub fn run(_op: &str, a: &Ints) -> Ints {
             Ok(out)
         }),
         // ---- C02: expression on Dual2: plain value, result, gradient1, gradient2, Dual::from
-        2 => guard(|| {
+        2 | 32 => guard(|| {
             let (names, env) = read_env(&mut r);
             let e = read_expr(&mut r);
             let mut out = vec![f2i(eval_f(&e, &env))];
-            let d = eval_d2(&e, &env);
+            let d = if op == 32 { eval_d2_sum(&e, &env) } else { eval_d2(&e, &env) };
             write_dual2(&d, &mut out);
             let g = d.gradient1(names.clone());
             out.push(g.len() as i128);
